@@ -394,6 +394,9 @@ func (c *Checker) CheckSource(sourceName string, source string) (compiler.Compil
 	methodScopesCopy := c.deepCopyMethodScopes(c.runtimeEnv, envCopy)
 	c.methodScopesCopyCache = nil
 	c.constantScopesCopyCache = nil
+	// the compiler of the last successfully compiled chunk,
+	// it knows the slots of the local variables that live on the stack of the VM
+	prevCompiler := c.compiler
 
 	c.Filename = sourceName
 	c.methodBodyChecks = nil
@@ -409,6 +412,9 @@ func (c *Checker) CheckSource(sourceName string, source string) (compiler.Compil
 		c.localEnvs = localEnvsCopy
 		c.constantScopes = constantScopesCopy
 		c.methodScopes = methodScopesCopy
+		// a failed check may stop at any stage and leave a half-initialised
+		// child compiler (eg. the one that defines namespaces) as the current one
+		c.compiler = prevCompiler
 	}
 
 	if compiler == nil {
